@@ -52,7 +52,7 @@ var (
 	clockPeriod  = time.Millisecond
 	lateSlack    = 40 * time.Millisecond
 	earlySlack   = 5 * time.Millisecond
-	overshootMax = 15 * time.Millisecond
+	overshootMax = 250 * time.Millisecond
 )
 
 func clockGoroutineAlive() bool {
@@ -239,6 +239,8 @@ func fixedHistories() [][]tStep {
 		{T(120), S, I(5), Q(50), T(20), I(1300), G},
 		{Q(5000), T(20), I(1300), G, S, T(50)},
 		{T(20), I(300), T(20), I(300), T(20), S, Q(50)},
+		{T(120), I(300), T(50), I(300), S, T(20), Q(50), T(50)}, // stop after ~0.8 s of clock uptime, then timed matches
+		{P(4), I(300), P(3), S, T(50), T(20)},
 	}
 }
 
@@ -277,6 +279,8 @@ type c14Obs struct {
 	Suspects  []string `json:"suspects"`
 	Snapshots []string `json:"snapshots"`
 	Overshoot int64    `json:"overshoot_ns"`
+	// timing misses not counted because the overshoot measured in the same run was as large
+	Discounted int `json:"discounted"`
 }
 
 func allHistories(seed int64, quick bool) [][]tStep {
@@ -310,9 +314,10 @@ func c14ChildMain(spec string) int {
 	for i := range obs {
 		// a window missed by no more than the overshoot measured during this very run says
 		// nothing about the clock: the machine kept goroutines off the CPU that long
-		if obs[i].missedBy > 0 && obs[i].missedBy <= over+2*time.Millisecond {
+		if obs[i].missedBy > 0 && obs[i].missedBy <= 2*over+5*time.Millisecond {
 			obs[i].err += fmt.Sprintf(" (window missed by %v, scheduler overshoot %v: not counted)", obs[i].missedBy, over)
 			obs[i].suspect = ""
+			out.Discounted++
 		}
 	}
 	for _, o := range obs {
@@ -399,6 +404,11 @@ func runC14(r *core.Run) int {
 			l.Count("step_"+st.kind, 1)
 		}
 		l.Nontrivial(histString(h))
+		if o != nil {
+			for k := 0; k < o.Discounted; k++ {
+				l.Inconclusive("timing-miss-within-measured-overshoot")
+			}
+		}
 		if o != nil && hi < 2 {
 			var lat []string
 			for i := range o.Steps {
@@ -431,6 +441,8 @@ func runC14(r *core.Run) int {
 					bad = o2.Steps[i] + ": " + sp
 				}
 			}
+			// the child already discounted timing misses up to twice the overshoot it measured; a run
+			// whose overshoot is beyond any use is not counted at all
 			if bad != "" && ov <= overshootMax {
 				reproduced++
 				details = append(details, fmt.Sprintf("run %d (overshoot %v): %s [%s]", try+1, ov, bad, snap))
@@ -452,6 +464,6 @@ func runC14(r *core.Run) int {
 	r.Extras["bounds"] = map[string]any{"histories": len(histories), "clock_period": clockPeriod.String(), "window": fmt.Sprintf("[d-%v, d+%v] (+5ms per concurrent match)", earlySlack, lateSlack), "timeouts": "20/50/120 ms", "idles": "5 ms, 300 ms, 1.3 s, 2.5 s", "isolation": "every history runs in its own child process under a watchdog"}
 	return r.Finish(
 		"histories of timed catastrophic matches T(d) (must fail with a timeout inside [d-5ms, d+40ms]), timed quick matches Q(d) (must not report a timeout), idle gaps shorter and longer than timeout + the clock's 1 s slop (after the long ones the clock goroutine must be gone and timeouts must still fire), StopTimeoutClock calls (must return and leave no clock goroutine) and concurrent timed matches with different deadlines, with a 1 ms clock period; each history runs in a fresh child process under a watchdog (a match whose timeout never fires cannot hang the check); 12 hand-ordered histories covering every predecessor/successor pair that matters plus seeded random ones; evaluation = one step; non-trivial = distinct history",
-		[]string{"wall-clock verdicts: a miss is a suspect, re-executed 3 times in fresh processes with scheduler overshoot measured; violation only if reproduced 3/3 with overshoot <= 15 ms, otherwise inconclusive", "millisecond-level accuracy is not claimed"},
+		[]string{"wall-clock verdicts: a miss is a suspect, re-executed 3 times in fresh processes with scheduler overshoot measured; a timing miss counts only if it exceeds twice the overshoot measured in the same run (+5 ms); violation only if reproduced 3/3, otherwise inconclusive", "millisecond-level accuracy is not claimed"},
 		map[string]int64{"evaluations": 40, "distinct_nontrivial": 10, "step_T": 10, "step_G": 3, "step_S": 3})
 }
